@@ -193,7 +193,13 @@ def install(world):
         if isinstance(v, SetVal):
             return SetVal(v.items, frozen)
         return BI.make_set(W, ex, BI.iterate(W, ex, v), frozen)
-    reg("set", lambda ex, a, kw: b_set(ex, a, kw, False))
+    def b_set_mutable(ex, a, kw):
+        r = b_set(ex, a, kw, False)
+        if is_zset(r):
+            # symbolic sets are values; remember that this one was built as a mutable set() (aliasing obligations, C14)
+            ex.ghost.setdefault("mutable_zsets", set()).add(r.get_id())
+        return r
+    reg("set", b_set_mutable)
     reg("frozenset", lambda ex, a, kw: b_set(ex, a, kw, True))
 
     def b_dict(ex, a, kw):
